@@ -41,6 +41,10 @@ var c01Kinds = []c01Kind{
 	{T: decl.TInt, Vals: []string{"5"}, Optional: true},
 	{T: decl.TPUpper, Vals: []string{"val", "x"}},
 	{T: decl.TUppers, Vals: []string{"a", "b"}},
+	{T: decl.TOnOff, Vals: []string{"on", "off"}},
+	{T: decl.TFloat32, Vals: []string{"0.1", "1.00000005960464478", "16777217.000000001"}},
+	{T: decl.TPInts, Vals: []string{"3", "-4"}},
+	{T: decl.TCSV, Vals: []string{"a,b", "c"}},
 }
 
 const (
@@ -188,12 +192,23 @@ func init() {
 		if c.Thorough {
 			maxDepth = 4
 		}
-		n := c.Choose(maxDepth + 1)
+		n := c.Choose(maxDepth + 2)
 		var argv, unitNames []string
-		for i := 0; i < n; i++ {
+		if n == maxDepth+1 {
+			// beyond the depth bound, a thin probe: one unit repeated many times (thresholds such as "the 9th occurrence")
 			u := cd.units[c.Choose(len(cd.units))]
-			argv = append(argv, u...)
-			unitNames = append(unitNames, strings.Join(u, " "))
+			reps := []int{5, 8, 9, 10, 16, 17, 33}[c.Choose(7)]
+			for i := 0; i < reps; i++ {
+				argv = append(argv, u...)
+				unitNames = append(unitNames, strings.Join(u, " "))
+			}
+			c.Hit("long-run")
+		} else {
+			for i := 0; i < n; i++ {
+				u := cd.units[c.Choose(len(cd.units))]
+				argv = append(argv, u...)
+				unitNames = append(unitNames, strings.Join(u, " "))
+			}
 		}
 		key := fmt.Sprintf("%s/%v/p%d/%s/%s/api=%v/hf=%v", kind.T.Name, kind.Optional, ce.placement, ce.delim, short, api, hf)
 		c.Describe(func() interface{} {
@@ -242,10 +257,10 @@ func init() {
 		Level:      "model_checking",
 		ShardDepth: 2,
 		Body:       body,
-		Rule: "option under test U of 21 kinds (bool, []bool, string, int, uint8, float64, Duration, *string, *int, []string, []int, map[string]string, map[string]int, " +
-			"func(), func(string), func(int) error, Unmarshaler, *Unmarshaler, []Unmarshaler, optional-argument string/int) x 11 placements (parser, subgroup, namespaced, doubly namespaced, command, " +
+		Rule: "option under test U of 25 kinds (bool, []bool, string, int, uint8, float64, float32, Duration, *string, *int, []string, []int, []*int, map[string]string, map[string]int, " +
+			"func(), func(string), func(int) error, Unmarshaler, *Unmarshaler, []Unmarshaler, a bool-kinded Unmarshaler, a slice-kinded Unmarshaler, optional-argument string/int) x 11 placements (parser, subgroup, namespaced, doubly namespaced, command, " +
 			"command's namespaced group, sub-subcommand, shadowing an ancestor's option at two depths, shadowing through an identical namespaced long name, plain group nested in a namespaced group) x namespace delimiter {., ::} x short name {u, é} x {struct tags, AddGroup/AddCommand API} " +
-			"x {None, HelpFlag|PassDoubleDash}; every sequence of <= 3 (quick) / <= 4 (thorough) units over all spellings of U with 1-3 values, bystander options, command words and a plain word; " +
+			"x {None, HelpFlag|PassDoubleDash}; every sequence of <= 3 (quick) / <= 4 (thorough) units over all spellings of U with 1-3 values, bystander options, command words and a plain word, plus beyond that bound every unit repeated 5, 8, 9, 10, 16, 17 and 33 times; " +
 			"oracle = command-line reference model (CLM) + conversion model; compared on every successful parse; states = distinct (declaration, CLM state), distinct = distinct (declaration, error class, #occurrences, value of U)",
 		Assumptions:  []string{"multi-valued optional-argument options are kept out (bare occurrence semantics undocumented)", "flags of a cluster that precede an unknown character are not asserted"},
 		RequiredHits: []string{"compared", "repeated-occurrence", "model-fault"},
